@@ -7,7 +7,7 @@
    loss, delay, duplication and reordering are all just schedules --, ACKED/LOST outcome for an emitted
    frame without outcome, ACKED only if it was delivered; pop / sync of the event queue).
    [n_dbytes] / [n_ends]: concatenation of the bytes / number of end markers reported to the application. *)
-From AQ Require Import lib.Base model.RangeSet model.StreamRecv model.StreamSpec model.StreamSend model.NetSys
+From AQ Require Import lib.Base model.RangeSet model.StreamRecv model.StreamSpec model.StreamSend model.NetSys model.NetSysLive
   proofs.StreamSendP proofs.NetSysP proofs.NetSysP2 proofs.NetSysP3 proofs.NetSysP4 proofs.NetSysP5 proofs.NetSysP6 proofs.NetSysP7.
 
 (* the bytes reported are a prefix of the bytes written, in every reachable state; the end marker is
